@@ -44,6 +44,8 @@ package mrz
 //@   ensures "optional-data-cd": result1 == nil ==> cdOK(mrz[72:86], mrz[86:87])
 //@   ensures "composite-cd": result1 == nil ==> cdOK(cat(mrz[44:54], mrz[57:64], mrz[65:87]), mrz[87:88])
 //@   ensures result1 == nil ==> result0 != nil
+//@   ensures fresh(result0)
+//@   assigns nothing
 //@   safety all
 
 //@ func decodeTD2
@@ -57,6 +59,8 @@ package mrz
 //@   ensures "expiry-date-cd": result1 == nil ==> cdOK(mrz[57:63], mrz[63:64])
 //@   ensures "composite-cd": result1 == nil ==> cdOK(cat(mrz[36:46], mrz[49:56], mrz[57:71]), mrz[71:72])
 //@   ensures result1 == nil ==> result0 != nil
+//@   ensures fresh(result0)
+//@   assigns nothing
 //@   safety all
 
 //@ func decodeTD1
@@ -70,12 +74,16 @@ package mrz
 //@   ensures "expiry-date-cd": result1 == nil ==> cdOK(mrz[38:44], mrz[44:45])
 //@   ensures "composite-cd": result1 == nil ==> cdOK(cat(mrz[5:30], mrz[30:37], mrz[38:45], mrz[48:59]), mrz[59:60])
 //@   ensures result1 == nil ==> result0 != nil
+//@   ensures fresh(result0)
+//@   assigns nothing
 //@   safety all
 
 //@ func MrzDecode
 //@   props C18 C12
 //@   ensures "only-icao-lengths": result1 == nil ==> len(mrz) == 90 || len(mrz) == 72 || len(mrz) == 88
 //@   ensures result1 == nil ==> result0 != nil
+//@   ensures fresh(result0)
+//@   assigns nothing
 //@   safety all
 
 // Key seed (MRZ information) routes.
